@@ -73,11 +73,10 @@ pub fn expose(m: &Scope, global: &mut FunctionMap) {
     });
     def!(f, grayscale(color), |args| match args.get(name!(color))? {
         Value::Color(col, _) => {
+            let is_rgb = col.is_rgb();
             let col = col.to_hsla();
-            Ok(
-                Hsla::new(col.hue(), 0., col.lum(), col.alpha(), false)
-                    .into(),
-            )
+            Ok(Hsla::new(col.hue(), 0., col.lum(), col.alpha(), !is_rgb)
+                .into())
         }
         v => NumOrSpecial::try_from(v)
             .map_err(|e| is_not(e.value(), "a color"))
